@@ -600,7 +600,7 @@ func c14MetaCase(rng *rand.Rand) c14HashCase {
 	m := message.NewMessage(uuid, []byte("payload"))
 	c := c14HashCase{Kind: "meta", Field: in.ID(field), UUID: in.ID(uuid), Shape: "meta"}
 	for _, n := range names {
-		if rng.Intn(3) == 0 {
+		if rng.Intn(3) == 0 || (n == field && rng.Intn(2) == 0) {
 			v := []string{"", "v1", "v2", n}[rng.Intn(4)]
 			m.Metadata.Set(n, v)
 			c.Meta = append(c.Meta, [2]int{in.ID(n), in.ID(v)})
